@@ -96,16 +96,6 @@ example : pullCount (i32AsU16 (-1)) 70000 = 4464 := by decide
 
 /-! ### The empty-response rule at system level -/
 
-theorem SidsUnique_of_SysInv {sys : Sys} (h : SysInv sys) : SidsUnique sys := by
-  have := h.sids
-  unfold Sys.ssh at this
-  simp only [List.map_map] at this
-  unfold SidsUnique
-  have h2 : sys.subs.map (·.sid) = List.map ((fun (e : SSh) => e.sid) ∘ fun e => ⟨e.sid, e.name, e.topicId, e.push⟩) sys.subs := by
-    apply List.map_congr_left; intro x _; rfl
-  rw [h2]
-  exact this.imp (fun h => Nat.ne_of_lt h)
-
 /-- C15, the empty-response rule at system level, for every state reached by any history
     (`SubsOk_all`, `SysInv_all`) in which no StreamingPull is open and fewer than 10^6 deliveries are
     outstanding when the wait begins: a Pull without `return_immediately` on an existing
